@@ -386,7 +386,7 @@ func mj(vs ...V) []modelJSON {
 
 func TestC11_SmallDomains(t *testing.T) {
 	c := harness.New(t, "C11", "small-domains",
-		"small numeric domains exhaustively: slice(s[, e]) for every array length 0..4 and s, e in -2..6; at(i) for strings of 0..4 characters (ASCII and multi-byte) and i in -6..6; truncate(n[, ellipsis]), repeat(n), decimal(sep, n) for n in -2..6 over ASCII and multi-byte strings; first/last/len/reverse/capitalize/upper/lower on every pool string; every zero-argument numeric function on boundary ints and floats; each call with the receiver as literal and as data. Non-trivial: has arguments, or a non-ASCII or array receiver. Distinct by construction.")
+		"small numeric domains exhaustively: slice(s[, e]) for every array length 0..4 and s, e in -2..6; at(i) for strings of 0..4 characters (ASCII and multi-byte) and i in -6..6; truncate(n[, ellipsis]), repeat(n), decimal(sep, n) for n in -2..6 over ASCII and multi-byte strings, and decimal / repeat with counts of 255 .. 3000000; first/last/len/reverse/capitalize/upper/lower on every pool string; every zero-argument numeric function on boundary ints and floats; each call with the receiver as literal and as data. Non-trivial: has arguments, or a non-ASCII or array receiver. Distinct by construction.")
 	defer c.Finish()
 	idx := 0
 	run := func(recv V, fn string, args ...V) {
@@ -427,6 +427,28 @@ func TestC11_SmallDomains(t *testing.T) {
 		}
 		run(refint.StrV(s), "decimal")
 		run(refint.StrV(s), "decimal", refint.StrV(""))
+	}
+	// counts beyond the limits of formatting helpers (a width of more than a million) and of small buffers: the
+	// contract's value, or - counts may be refused as oversized - an error, nothing else
+	for _, n := range []int{255, 256, 65536, 999999, 1000000, 1000001, 3000000} {
+		for _, q := range []struct {
+			src  string
+			want int
+		}{{fmt.Sprintf("7.decimal('.', %d)", n), 2 + n}, {fmt.Sprintf("'12'.decimal(',', %d)", n), 3 + n}, {fmt.Sprintf("'ab'.repeat(%d)", n), 2 * n}, {fmt.Sprintf("'é'.repeat(%d)", n), n},
+			{fmt.Sprintf("'abc'.truncate(%d)", n), 3}, {fmt.Sprintf("[1, 2].slice(0, %d)", n), 2}} {
+			idx++
+			if !harness.Mine(idx) {
+				continue
+			}
+			c.CaseEnum(true, "large-count")
+			src := "{{ x = " + q.src + " }}[{{ x.len() }}|{{ x.len() }}]"
+			r := evalString(c, "text", src, src, nil)
+			if r.Panic != nil {
+				c.Fail(t, "panic", src, "the contract's value or an error", r, "panic: "+r.Panic.Value)
+			} else if !r.IsErr() && r.Out != fmt.Sprintf("[%d|%d]", q.want, q.want) {
+				c.Fail(t, "mismatch", src, fmt.Sprintf("[%d|%d] or an error", q.want, q.want), r, fmt.Sprintf("%s has length %s, the contract gives %d", q.src, r.Out, q.want))
+			}
+		}
 	}
 	for _, i := range []int64{0, 1, -1, 12, -345, 1000000, math.MaxInt64, math.MinInt64 + 1} {
 		for n := int64(-2); n <= 6; n++ {
